@@ -113,6 +113,15 @@ def colname(cfg: dict, ci: int) -> str:
     return 'one' if ci >= cfg['C'] else f'x{ci}'
 
 
+def _absent(cfg, bd):
+    """An absent bound is written None or, equivalently, as an infinite number (buggify knob 'inf_bounds')."""
+    lb, ub = bd
+    if cfg.get('inf_bounds'):
+        lb = -math.inf if lb is None else lb
+        ub = math.inf if ub is None else ub
+    return lb, ub
+
+
 def build_formulas(cfg: dict, cliff: bool = True, name_map: dict | None = None,
                    reverse_terms: bool = False):
     """Returns (loglike expression, weight expression or None, dict name -> Beta)."""
@@ -123,7 +132,7 @@ def build_formulas(cfg: dict, cliff: bool = True, name_map: dict | None = None,
     blist = []
     for i, name in enumerate(cfg['names']):
         bd = cfg['bounds'][i] if cfg.get('bounds') else None
-        lb, ub = (bd if bd else (None, None))
+        lb, ub = _absent(cfg, bd if bd else (None, None))
         b = Beta(nm(name), cfg['init'][i], lb, ub, 0)
         betas[name] = b
         blist.append(b)
@@ -148,7 +157,7 @@ def build_formulas(cfg: dict, cliff: bool = True, name_map: dict | None = None,
         second = []
         for i in range(cfg['K']):
             bd = cfg['bounds'][i] if cfg.get('bounds') else None
-            lb, ub = (bd if bd else (None, None))
+            lb, ub = _absent(cfg, bd if bd else (None, None))
             twin = Beta(nm(cfg['names'][i]), cfg['init'][i], lb, ub, 0)
             betas.setdefault('__twins__', []).append((cfg['names'][i], twin))
             second.append(twin)
